@@ -59,6 +59,11 @@ func TestC03WellFormed(t *testing.T) {
 		// A sequence of Include calls: primary members, equal-content twins,
 		// fresh resources, and repeats of earlier arguments.
 		ncalls := rapid.IntRange(0, 10).Draw(t, "ncalls")
+		if rapid.IntRange(0, 5).Draw(t, "manycalls") == 0 {
+			// Long histories: an index or cache behind Include must agree
+			// with the plain scan.
+			ncalls = rapid.IntRange(11, 48).Draw(t, "ncalls-long")
+		}
 		pool := []gen.ResModel{}
 		dupCall := false
 		seen := map[string]bool{}
